@@ -503,7 +503,10 @@ impl Filter {
             return Ok(None); // actually an error
         }
 
-        let base_offset = crate::HEX_INVERSE[hex[32] as usize];
+        let base_offset = match crate::HEX_INVERSE.get(hex[32] as usize) {
+            Some(v) => *v,
+            None => 255, // bytes >= 128 are outside the table: not hex
+        };
         if base_offset == 255 {
             return Ok(None); // actually an error
         }
